@@ -239,3 +239,85 @@ func VerifC15EndBlocker() {
 	}
 	check("(after a second run)")
 }
+
+// verifStaking2: two bonded validators (100 tokens each), both of which may vote themselves.
+type verifStaking2 struct{ vals []sdk.ValAddress }
+
+func (s verifStaking2) ValidatorAddressCodec() addresscodec.Codec { return verifValCodec{} }
+func (s verifStaking2) IterateBondedValidatorsByPower(ctx context.Context, fn func(int64, stakingtypes.ValidatorI) bool) error {
+	for i, v := range s.vals {
+		fn(int64(i), stakingtypes.Validator{OperatorAddress: v.String(), Status: stakingtypes.Bonded, Tokens: sdkmath.NewInt(100), DelegatorShares: sdkmath.LegacyNewDec(100)})
+	}
+	return nil
+}
+func (s verifStaking2) TotalBondedTokens(context.Context) (sdkmath.Int, error) {
+	return sdkmath.NewInt(int64(100 * len(s.vals))), nil
+}
+func (s verifStaking2) IterateDelegations(ctx context.Context, d sdk.AccAddress, fn func(int64, stakingtypes.DelegationI) bool) error {
+	return nil
+}
+
+// VerifC17Tally: the tally of a proposal on which two or three validators voted (each yes, no,
+// veto or abstain) is computed from Go maps of validators and of results; its verdict, burn flag
+// and result figures must not depend on map iteration order (run under both orders on two
+// branches of the same state).
+func VerifC17Tally() {
+	if sdk.GetConfig().GetBech32AccountAddrPrefix() != fxtypes.AddressPrefix {
+		fxtypes.SetConfig(false)
+	}
+	ms := models.NewMultiStore("gov")
+	ctx := models.NewContext(ms, 10, 1700000000)
+	bank := models.NewBank(ms)
+	n := rt.Bound("votingValidators", 2, 3)
+	var vals []sdk.ValAddress
+	for i := 0; i < n; i++ {
+		a := make([]byte, 20)
+		a[0], a[1] = 0x71, byte(i+1)
+		vals = append(vals, sdk.ValAddress(a))
+	}
+	sk := verifStaking2{vals: vals}
+	cdc := models.NewFullCodec(func(reg codectypes.InterfaceRegistry) {
+		govv1.RegisterInterfaces(reg)
+		types.RegisterInterfaces(reg)
+	})
+	gk := govkeeper.NewKeeper(cdc, models.NewStoreService("gov"), verifAccounts{}, bank, sk, nil, nil, govtypes.DefaultConfig(), verifAuthority)
+	k := keeper.NewKeeper(models.NewStoreService("gov"), verifAccounts{}, bank, sk, map[string]*storetypes.KVStoreKey{}, gk, cdc, verifAuthority)
+	params := govv1.DefaultParams()
+	params.BurnVoteVeto = true
+	if err := k.Params.Set(ctx, params); err != nil {
+		panic(err)
+	}
+	now := ctx.BlockTime()
+	p := govv1.Proposal{Id: 1, Status: govv1.StatusVotingPeriod, SubmitTime: &now, DepositEndTime: &now, VotingStartTime: &now, VotingEndTime: &now, Title: "t", Summary: "s"}
+	if k.SetProposal(ctx, p) != nil {
+		panic("harness: cannot store the proposal")
+	}
+	opts := []govv1.VoteOption{govv1.OptionYes, govv1.OptionNo, govv1.OptionNoWithVeto, govv1.OptionAbstain}
+	for i, v := range vals {
+		o := opts[rt.Choose([]string{"vote1", "vote2", "vote3"}[i], 4)]
+		voter := sdk.AccAddress(v)
+		if k.Votes.Set(ctx, collections.Join(uint64(1), voter), govv1.Vote{ProposalId: 1, Voter: voter.String(), Options: govv1.NewNonSplitVoteOption(o)}) != nil {
+			panic("harness: cannot store a vote")
+		}
+	}
+	var firstPass, firstBurn bool
+	var first govv1.TallyResult
+	for run := 0; run < rt.Repeats(); run++ {
+		rt.SetMapOrder(run%2 == 1)
+		cctx, _ := ctx.CacheContext()
+		passes, burn, res, err := k.Tally(cctx, p)
+		if err != nil {
+			rt.Assert(false, "the tally does not fail on consistent records")
+			return
+		}
+		if run == 0 {
+			firstPass, firstBurn, first = passes, burn, res
+			rt.Cover("computed")
+			continue
+		}
+		rt.Assert(passes == firstPass && burn == firstBurn, "same verdict and burn flag under every map order")
+		rt.Assert(res.YesCount == first.YesCount && res.NoCount == first.NoCount && res.NoWithVetoCount == first.NoWithVetoCount && res.AbstainCount == first.AbstainCount,
+			"identical tally figures under every map order")
+	}
+	rt.SetMapOrder(false)
+}
